@@ -58,6 +58,14 @@ func (s scen) String() string {
 
 type ctxKey struct{}
 
+var (
+	errShutdown = errors.New("application: shutting down")
+	errBudget   = errors.New("application: request budget spent")
+)
+
+// deadlineKind: the context kinds that end by themselves after CtxDeadline.
+func deadlineKind(k string) bool { return k == "withdeadline" || k == "timeoutcause" }
+
 func makeCtx(kind string, dl time.Duration) (context.Context, context.CancelFunc) {
 	switch kind {
 	case "background":
@@ -70,6 +78,13 @@ func makeCtx(kind string, dl time.Duration) (context.Context, context.CancelFunc
 		return context.WithCancel(context.Background())
 	case "withdeadline":
 		return context.WithTimeout(context.Background(), dl)
+	case "cancelcause":
+		// a context cancelled WITH A CAUSE (an application saying why it shuts down): ctx.Err() is still
+		// context.Canceled, context.Cause(ctx) is the application's own error
+		ctx, cancel := context.WithCancelCause(context.Background())
+		return ctx, func() { cancel(errShutdown) }
+	case "timeoutcause":
+		return context.WithTimeoutCause(context.Background(), dl, errBudget)
 	case "foreign":
 		// a context type of the application's own (merged contexts, a context bound to a shutdown signal): the
 		// context package cannot see through it, so every context derived from it needs a goroutine of its
@@ -457,7 +472,7 @@ func judge(c *mon.C, s scen, o outcome) bool {
 		to = 0
 	}
 	hsDone := time.Duration(s.Chunks) * s.ChunkDelay // virtual completion time of an undisturbed handshake (after the dial phase)
-	if s.CtxKind == "withdeadline" && s.Event != "cancel" && (silent || s.CtxDeadline < s.DialDelay+hsDone) && (s.Timeout == 0 || s.CtxDeadline < s.Timeout) {
+	if deadlineKind(s.CtxKind) && s.Event != "cancel" && (silent || s.CtxDeadline < s.DialDelay+hsDone) && (s.Timeout == 0 || s.CtxDeadline < s.Timeout) {
 		forcedBefore = true
 	}
 	if forcedBefore {
@@ -473,7 +488,7 @@ func judge(c *mon.C, s scen, o outcome) bool {
 	// R4: bounded return on a silent or slow peer
 	bound := time.Duration(-1)
 	if silent || s.ChunkDelay > 0 || s.DialDelay > 0 {
-		if s.CtxKind == "withdeadline" {
+		if deadlineKind(s.CtxKind) {
 			bound = s.CtxDeadline
 		}
 		if s.Timeout != 0 && (bound < 0 || to < bound) {
@@ -509,7 +524,7 @@ func judge(c *mon.C, s scen, o outcome) bool {
 	// a handshake that can finish before any limit must succeed
 	if !silent && s.Event == "none" && s.Peer == "responsive" {
 		lim := time.Duration(-1)
-		if s.CtxKind == "withdeadline" {
+		if deadlineKind(s.CtxKind) {
 			lim = s.CtxDeadline
 		}
 		if s.Timeout != 0 && (lim < 0 || to < lim) {
@@ -733,6 +748,30 @@ func buildScenarios(t *testing.T) []scen {
 			scenList = append(scenList, s)
 		}
 		scenList = append(scenList, scen{CtxKind: "withdeadline", CtxDeadline: time.Second, Event: "none", Place: "dialphase", Peer: "responsive", Chunks: 1, WBuf: 4096, DialDelay: 10 * time.Second})
+		// C: contexts that end WITH A CAUSE: cancelled with a cause while blocked on a silent peer / at every I/O
+		// operation of a one-chunk handshake / in the dial phase; a deadline-with-cause expiring against a silent
+		// peer and a slow one, alone and with a longer Dialer.Timeout. "The error is the context's error": ctx.Err().
+		{
+			base := scen{CtxKind: "cancelcause", CtxDeadline: time.Hour, Event: "none", Peer: "responsive", Chunks: 2, WBuf: 4096}
+			dry := runScenario(t, base)
+			base.LastOp = dry.ops - 1
+			scenList = append(scenList, base)
+			for i := 0; i < dry.ops; i++ {
+				for _, pl := range []string{"before", "after"} {
+					s := base
+					s.Event, s.Place = "cancel", fmt.Sprintf("%s:%d", pl, i)
+					scenList = append(scenList, s)
+				}
+			}
+			for _, to := range []time.Duration{0, time.Hour} {
+				scenList = append(scenList, scen{CtxKind: "cancelcause", CtxDeadline: time.Hour, Timeout: to, Event: "cancel", Place: "blocked", Peer: "silent:0", Chunks: 1, WBuf: 4096})
+				scenList = append(scenList, scen{CtxKind: "cancelcause", CtxDeadline: time.Hour, Timeout: to, Event: "cancel", Place: "blocked", Peer: "silent:0", Chunks: 1, WBuf: 4096, TLS: true})
+				scenList = append(scenList, scen{CtxKind: "cancelcause", CtxDeadline: time.Hour, Timeout: to, Event: "cancel", CancelAt: time.Second, Place: "dialphase", Peer: "responsive", Chunks: 1, WBuf: 4096, DialDelay: 10 * time.Second})
+				scenList = append(scenList, scen{CtxKind: "timeoutcause", CtxDeadline: 5 * time.Second, Timeout: to, Event: "none", Place: "blocked", Peer: "silent:0", Chunks: 1, WBuf: 4096})
+				scenList = append(scenList, scen{CtxKind: "timeoutcause", CtxDeadline: 5 * time.Second, Timeout: to, Event: "none", Peer: "responsive", Chunks: 3, ChunkDelay: 3 * time.Second, WBuf: 4096})
+				scenList = append(scenList, scen{CtxKind: "timeoutcause", CtxDeadline: time.Second, Timeout: to, Event: "none", Place: "dialphase", Peer: "responsive", Chunks: 1, WBuf: 4096, DialDelay: 10 * time.Second})
+			}
+		}
 		// S: cancel while a non-poisoning deadline call of Dial's goroutine is in flight (gate sd0), silent peer
 		for _, ck := range []string{"withcancel", "withdeadline", "foreign"} {
 			for _, to := range []time.Duration{0, time.Hour} {
